@@ -53,6 +53,12 @@ func newWSHandler(host string, dial dialFunc, conn gkm.Gauge) http.Handler {
 		}
 		defer out.Close()
 
+		if _, ok := r.Header["User-Agent"]; !ok {
+			// a client without User-Agent stays without one: Request.Write
+			// sends Go's default value unless the header is set (to nothing)
+			r.Header.Set("User-Agent", "")
+		}
+
 		err = r.Write(out)
 		if err != nil {
 			log.Printf("[ERROR] Error copying request for %s. %s", r.URL, err)
